@@ -141,9 +141,21 @@ class ListT(Type):
         self.elem = elem
 
     def fresh(self, name):
-        tmpl, _ = self.elem.fresh(name + "_tmpl")
+        from .values import leaves_of
+
+        tmpl, twf = self.elem.fresh(name + "_tmpl")
         lst = SymList.fresh(name, tmpl)
-        return lst, [lst.length >= 0]
+        wf = [lst.length >= 0]
+        if twf:
+            # well-formedness of the element type holds for every element: substitute the template leaves by selections
+            k = z3.Int(fresh_name("k"))
+            pairs = []
+            for leaf, arr in zip(leaves_of(tmpl), lst.arrs):
+                if z3.is_expr(leaf) and arr is not None and not isinstance(arr, str):
+                    pairs.append((leaf, z3.Select(arr, k)))
+            for f in twf:
+                wf.append(z3.ForAll([k], z3.substitute(z3.And(f) if not z3.is_expr(f) else f, *pairs)))
+        return lst, wf
 
 
 class SetT(Type):
